@@ -29,12 +29,24 @@ static ACTIVE: AtomicBool = AtomicBool::new(false);
 /// the kernel and are handled by the blocked-thread supervision)
 static LOCK_WINDOW: AtomicBool = AtomicBool::new(false);
 
+/// impatient-drop mode: the `caller.join` gate is always enabled (a real join
+/// then blocks in the kernel and is supervised), and from that gate to the
+/// caller's next gate its clock jumps 10 s per reading, so a bounded wait for
+/// the worker gives up at once.
+static IMPATIENT: AtomicBool = AtomicBool::new(false);
+
+pub fn set_impatient(on: bool) {
+    IMPATIENT.store(on, Ordering::Release);
+}
+
 pub fn set_lock_window(on: bool) {
     LOCK_WINDOW.store(on, Ordering::Release);
 }
 
 fn blocked_after() -> Duration {
-    if LOCK_WINDOW.load(Ordering::Acquire) {
+    if IMPATIENT.load(Ordering::Acquire) {
+        Duration::from_millis(200)
+    } else if LOCK_WINDOW.load(Ordering::Acquire) {
         Duration::from_millis(1000)
     } else {
         BLOCKED_AFTER
@@ -231,6 +243,7 @@ pub fn with_inner<R>(f: impl FnOnce(&mut Inner) -> R) -> Option<R> {
 
 /// Parks the calling managed thread until the scheduler grants `p`.
 pub fn gate(tid: usize, mut p: Pending) -> Fault {
+    interpose::vclock_set(false);
     let mut g = lock();
     let cv = {
         let Some(inner) = g.as_mut() else { return Fault::None };
@@ -498,6 +511,9 @@ impl raft_log::verif_hooks::Probe for HookProbe {
                 };
                 let _ = gate(t, Pending { point: Point::Hook(point, a), res: Res::bits(bits), call: None });
                 with_inner(|i| i.trace.push(Event::Hook { tid: t, point, a }));
+                if point == "caller.join" && IMPATIENT.load(Ordering::Acquire) {
+                    interpose::vclock_set(true);
+                }
             }
         }
     }
@@ -593,6 +609,7 @@ fn enabled_now(i: &Inner, ch: &dyn Chooser) -> Vec<Enabled> {
         let Some(p) = &s.pending else { continue };
         let en = match &p.point {
             Point::Hook("worker.recv", _) => !i.queues[s.inst].is_empty() || i.sender_dropped[s.inst],
+            Point::Hook("caller.join", _) if IMPATIENT.load(Ordering::Acquire) => true,
             Point::Hook("caller.join", _) => match i.worker_of_inst.get(s.inst).copied().flatten() {
                 None => true,
                 Some(wt) => i.slots[wt].state == TState::Finished,
